@@ -219,7 +219,7 @@ fn c17_entropy_table() {
 
 /// Quantiles: InvalidQuantile(first offending q) iff some q is outside [0,1], decided before
 /// emptiness; EmptyInput iff the chosen axis has length zero.
-//@ prop=C17 tier=quick mem=6 timeout=2400 flags=modelmap uses=cut inst="quantile_axis_mut / quantile_mut / quantile_axis_skipnan_mut with EVERY finite q, on arrays whose chosen axis is empty, and every invalid q on non-empty arrays" bounds="q any non-NaN f64; shapes [0], [2,0] (axis 1), [0,2] (axis 0), [2]; unwind 8"
+//@ prop=C17 tier=quick mem=6 timeout=2400 flags=modelmap uses=cut inst="quantile_axis_mut / quantile_mut / quantile_axis_skipnan_mut with EVERY finite q, on arrays whose chosen axis is empty, and every invalid q on non-empty arrays" bounds="q any non-NaN f64; shapes [0], [2,0] (axes 0 and 1), [0,2] (axis 0), [0,3] (axis 1), [2]; unwind 8"
 #[kani::proof]
 #[kani::unwind(8)]
 fn c17_quantile_single_q() {
@@ -237,6 +237,21 @@ fn c17_quantile_single_q() {
     let mut e3: Array2<Option<i8>> = Array2::from_shape_vec((0, 2), Vec::with_capacity(1)).unwrap();
     let r = e3.quantile_axis_skipnan_mut(Axis(0), q, &Lower);
     assert!(r == Err(if valid { QuantileError::EmptyInput } else { QuantileError::InvalidQuantile(q) }));
+    // the chosen axis is non-empty but another axis has length zero (no lanes): q is still validated first
+    let mut e4: Array2<i8> = Array2::from_shape_vec((2, 0), Vec::with_capacity(1)).unwrap();
+    let r = e4.quantile_axis_mut(Axis(0), q, &Lower);
+    if valid {
+        assert!(matches!(&r, Ok(a) if a.len() == 0), "valid q, no lanes => Ok(empty)");
+    } else {
+        assert!(r == Err(QuantileError::InvalidQuantile(q)), "invalid q is reported even when there is no lane to compute");
+    }
+    let mut e5: Array2<i8> = Array2::from_shape_vec((0, 3), Vec::with_capacity(1)).unwrap();
+    let r = e5.quantiles_axis_mut(Axis(1), &array![n64(0.5), q], &Nearest);
+    if valid {
+        assert!(matches!(&r, Ok(a) if a.len() == 0 && a.shape()[1] == 2));
+    } else {
+        assert!(r == Err(QuantileError::InvalidQuantile(q)));
+    }
     if !valid {
         let v: [i8; 2] = kani::any();
         let mut a = Array1::from(v.to_vec());
